@@ -1036,6 +1036,8 @@ def check_card_text(ctx, F):
         raise U(rule, f"{len(oks)} Ok returns in Card::from_str", fs)
     ob, ot = oks[0]
     card = P.strip(ot[2][0])
+    if card[0] != "agg":
+        card = P.strip(P.narrow_deep(card))     # the payload of a freshly built `Some(Card(..))` handed to `ok_or_else`
     good = card[0] == "agg" and card[1] == f"adt:{CARD}::Card"
     if not good and card[0] == "call" and card[1] in F.fns:
         cpr = P.Prov(F.fns[card[1]])
